@@ -107,8 +107,7 @@ Effect(st, a) ==
     CASE a.op = "open" ->
            [st EXCEPT !.fil[a.n] = [open |-> TRUE, name |-> a.name, mode |-> a.mode, li |-> 1, ii |-> 0,
                                     bad |-> ~st.disk[a.name].known],
-                      !.disk[a.name] = IF a.mode = "O" THEN EmptyFile
-                                       ELSE IF a.mode = "A" THEN [@ EXCEPT !.extra = 0] ELSE @]
+                      !.disk[a.name] = IF a.mode = "O" THEN EmptyFile ELSE @]
       [] a.op = "close" -> [st EXCEPT !.fil[a.n] = Closed]
       [] a.op = "write" ->
            LET x == st.fil[a.n].name  ln == [k |-> "w", items |-> a.items]
@@ -124,7 +123,8 @@ Effect(st, a) ==
 
 \* observables of an open file
 Eof(st, n) == AtEof(Lines(st, n), st.fil[n].li)
-Lof(st, n) == LET d == st.disk[st.fil[n].name] IN d.len + (IF st.fil[n].mode = "I" THEN d.extra ELSE 0)
+\* (extra: bytes of the host file beyond the written text, i.e. an end-of-file mark; re-synchronised from the host file)
+Lof(st, n) == LET d == st.disk[st.fil[n].name] IN d.len + d.extra
 
 (* ---- BYTE LAYER: the scanning rules of INPUT # and LINE INPUT # (GW-BASIC manual, INPUT# statement) ------------- *)
 RECURSIVE SkipSet(_, _, _)
